@@ -7,7 +7,7 @@ import os, subprocess, json
 from lib import vf
 
 MANIFEST = {
- 'text': "Coq theorems: (1) a file is attributed to the nearest enclosing repository root for every history of earlier look-ups, over paths as component lists (prefix-sharing siblings and nested repositories covered; the pre-fix string-prefix cache is refuted by witnesses); (2) for EVERY interleaving of the atomic cache operations of all files of a run (FindMetadata / WriteWorkflowCallEvent on the shared per-project caches), each file's result equals its result when linted alone, provided the callees are well-formed (loads succeed, AST-derived interface = file-derived interface) — by a consistency invariant over schedules; without that proviso the once-per-run error is refuted to be order independent (recorded finding); (3) the operations through which rule code touches shared tables leave them unchanged and perform no write (pre-fix sortedQuotes / checkMatrixExpression refuted); (4) a trace without unguarded writes has no data race; (5) every package-level variable of the source (re-listed on every run) is a known read-only table / pattern / colour object / build string and no statement of the package writes one (assignment, ++, sort / delete / clear / copy on it). Tie: attribution histories on real directory trees evaluated by Projects.At and by the model (vm_compute); alone-vs-together linting of generated repositories in random subsets/orders/GOMAXPROCS; deep fingerprints of the exported tables; Go race detector. Partial: the Go memory model and goroutine scheduling are sampled, not proved; the cache protocol is proved at the granularity of mutex-protected operations.",
+ 'text': "Coq theorems: (1) a file is attributed to the nearest enclosing repository root for every history of earlier look-ups, over paths as component lists (prefix-sharing siblings and nested repositories covered; the pre-fix string-prefix cache is refuted by witnesses); (2) for EVERY interleaving of the atomic cache operations of all files of a run (FindMetadata / WriteWorkflowCallEvent on the shared per-project caches), each file's result equals its result when linted alone, provided the callees are well-formed (loads succeed, AST-derived interface = file-derived interface) — by a consistency invariant over schedules; without that proviso the once-per-run error is refuted to be order independent (recorded finding); (2b) at the granularity the code really has - a lookup is two critical sections, probe and (after the file was read) commit - for every schedule of any number of files each callee is answered `not cached` (= its own defects are reported) never twice, and exactly once when all files that use it are finished; the values delivered are the file's under every schedule; the protocol before the repair cf88990 is refuted (two reports); (3) the operations through which rule code touches shared tables leave them unchanged and perform no write (pre-fix sortedQuotes / checkMatrixExpression refuted); (4) a trace without unguarded writes has no data race; (5) every package-level variable of the source (re-listed on every run) is a known read-only table / pattern / colour object / build string and no statement of the package writes one (assignment, ++, sort / delete / clear / copy on it). Tie: attribution histories on real directory trees evaluated by Projects.At and by the model (vm_compute); alone-vs-together linting of generated repositories in random subsets/orders/GOMAXPROCS; runs whose files share defective callees under the free scheduler and under the all-probes-first schedule forced through the verif hook VerifCacheHook, the number of reports per callee compared with the model (run_once, vm_compute); deep fingerprints of the exported tables; Go race detector. Partial: the Go memory model and goroutine scheduling are sampled, not proved; the cache protocol is proved at the granularity of mutex-protected critical sections (probe / commit).",
  'note': "Trusted: Coq kernel; hand-written models of project.go, the cache protocol and the table-touching operations (correspondence-checked for attribution, oracle-checked for isolation/tables); the file system enters as an oracle (which directories are roots, what a callee file parses to). The harness needs cgo (gcc) for -race; if the race build is unavailable the check still runs without the detector and says so in the evidence.",
  'technique': "machine-checked proof in Coq (invariant over all schedules of cache operations; nearest-root attribution over component paths) + vm_compute correspondence + alone-vs-together oracle under the Go race detector",
 }
@@ -50,10 +50,10 @@ def run(ctx):
     gate = vf.grep_gate()
     if gate:
         ctx.broken.append('forbidden constructs in coq/: ' + '; '.join(gate[:5]))
-    nattr, nrepo, maxf = (300, 6, 4) if not ctx.thorough() else (3000, 60, 6)
+    nattr, nrepo, maxf, nonce = (300, 6, 4, 60) if not ctx.thorough() else (3000, 60, 6, 1500)
     env = vf.goenv(); env['GORACE'] = 'halt_on_error=0 exitcode=66'
     p = subprocess.run([os.path.join(bindir, 'c10'), '-seed', str(ctx.seed), '-nattr', str(nattr), '-nrepo', str(nrepo),
-                        '-maxfiles', str(maxf), '-out', ctx.out], env=env, stdout=subprocess.PIPE, stderr=subprocess.PIPE, text=True, errors='replace', timeout=3000)
+                        '-maxfiles', str(maxf), '-nonce', str(nonce), '-out', ctx.out], env=env, stdout=subprocess.PIPE, stderr=subprocess.PIPE, text=True, errors='replace', timeout=3000)
     fails = []
     if 'DATA RACE' in p.stderr:
         i = p.stderr.index('DATA RACE')
@@ -79,6 +79,16 @@ def run(ctx):
     if bad:
         ctx.broken.append('correspondence C10/attribution (Projects.At vs model at_): %d of %d histories disagree' % (len(bad), len(terms)))
         ctx.first_disagreement = {'case': terms[bad[0]][:3000]}
+    once = vf.read_lines(os.path.join(ctx.out, 'cases_once.txt'))
+    bad2, err2 = vf.coq_cases(ctx, 'C10o', ['Multi.CacheSplit', 'Multi.CacheSplitObs'], '(list (list string) * list string)', 'run_once', once, shard=100, ordered=True)
+    if err2:
+        ctx.broken.append('correspondence cases (once per run) did not evaluate: ' + err2[-400:])
+    if bad2:
+        ctx.broken.append('correspondence C10/once-per-run (number of reports of a callee\'s own defect in a run vs the model of the two-section lookup, run_once): %d of %d runs disagree' % (len(bad2), len(once)))
+        if not bad:
+            ctx.first_disagreement = {'case': once[bad2[0]][:3000]}
+    terms = terms + once
+    bad = bad + bad2
     ctx.coverage.update({
         'obligations': nthm, 'discharged': ndis,
         'evaluations': s['evaluations'], 'distinct_nontrivial': s['distinct_nontrivial'],
